@@ -5,9 +5,16 @@
 //	replay  CFG MOVES.json         -> run one schedule, print events + states (JSON on stdout)
 //	stress  NG NW ITERS SEED ROUNDS -> free-running stress with injected pre-emption (for -race builds)
 //
-// CFG = NW:TARGET:MAXG:MAXF:PRE, e.g. 2:1,1,2:2:2:1 (TARGET: waker of each waker
-// goroutine; PRE=1: wakers attached before the schedule starts; TARGET "r<n>":
-// n goroutines with targets drawn from the run's random source).
+// CFG = NW:TARGET:MAXG:MAXF:PRE[:OPTS], e.g. 2:1,1,2:2:2:1 (TARGET: waker of each
+// waker goroutine; PRE=1: wakers attached before the schedule starts; TARGET
+// "r<n>": n goroutines with targets drawn from the run's random source; OPTS,
+// comma separated: a = the waker goroutines only Assert, q<k> = wakers 1..k are
+// asserted, hence queued, before the schedule starts).
+//
+// Watchdog (sched.go): a call of the code under test that does not come back
+// from a step is reported as a `stuck` event (spinning | parked), the history is
+// abandoned and its goroutines are leaked; after maxSpinLeaks spinning leaks the
+// driver stops making new histories (output marked aborted).
 //
 // Worker 0 is the sleeper goroutine (AddWaker / Fetch / Done all run on it:
 // gopark and goready are per goroutine); workers 1..n are the waker goroutines.
@@ -36,19 +43,34 @@ var pcWaker = map[int]string{18: "A1", 19: "A2", 13: "E1", 14: "E2", 15: "E3", 1
 var wsName = map[int]string{sleep.VerifWNil: "nil", sleep.VerifWSleeper: "slp", sleep.VerifWAsserted: "asserted"}
 
 type config struct {
-	nw     int
-	target []int // waker (1-based) of waker goroutine g (index g-1)
-	maxG   int
-	maxF   int
-	pre    bool
+	nw      int
+	target  []int // waker (1-based) of waker goroutine g (index g-1)
+	maxG    int
+	maxF    int
+	pre     bool
+	noClear bool // option "a": the waker goroutines only Assert
+	preQ    int  // option "q<k>": wakers 1..k asserted (and so queued) before the schedule starts; needs pre
 }
 
 func parseCfg(s string, r *rand.Rand) config {
 	p := strings.Split(s, ":")
-	if len(p) != 5 {
+	if len(p) != 5 && len(p) != 6 {
 		vh.Fatal("bad config %q", s)
 	}
 	c := config{nw: atoi(p[0]), maxG: atoi(p[2]), maxF: atoi(p[3]), pre: p[4] == "1"}
+	if len(p) == 6 {
+		for _, o := range strings.Split(p[5], ",") {
+			switch {
+			case o == "a":
+				c.noClear = true
+			case strings.HasPrefix(o, "q"):
+				c.preQ = atoi(o[1:])
+			case o == "":
+			default:
+				vh.Fatal("bad option %q in %q", o, s)
+			}
+		}
+	}
 	if strings.HasPrefix(p[1], "r") {
 		n := atoi(p[1][1:])
 		for i := 0; i < n; i++ {
@@ -100,11 +122,22 @@ type sys struct {
 
 	g []gst // index g-1
 
-	lastObs string
-	frozen  map[string]interface{}
+	lastObs  string
+	frozen   map[string]interface{}
+	off      bool // created after the driver gave up (aborted): does nothing
+	hopeless bool // the re-attachment probe got stuck
 }
 
+const maxSpinLeaks = 3
+
+var aborted bool // too many goroutines left spinning: no new histories
+var stuckSeen int
+
 func newSys(c config) *sys {
+	if aborted {
+		return &sys{c: c, off: true}
+	}
+	resetSentinel()
 	s := &sys{c: c, s: &sleep.Sleeper{}, idx: map[*sleep.Waker]int{}, pcF: "idle", sp: "nil", pend: map[int]bool{}}
 	for i := 0; i < c.nw; i++ {
 		w := &sleep.Waker{}
@@ -124,10 +157,16 @@ func newSys(c config) *sys {
 			id := s.nadd + 1
 			sl := s.s
 			p := s.sc.Start(0, func() interface{} { sl.AddWaker(w, id); return nil })
-			for !p.Done {
+			for !p.Done && s.sc.stuckState == "" {
 				p = s.sc.Grant(0)
 			}
+			if s.sc.stuckState != "" {
+				vh.Fatal("AddWaker on a fresh sleeper does not return (%s)", s.sc.stuckState)
+			}
 			s.nadd++
+		}
+		for w := 0; w < c.preQ; w++ {
+			s.wk[w].Assert() // harness goroutine: the hook lets it through
 		}
 	}
 	s.lastObs = s.obsKey(s.obs())
@@ -135,10 +174,13 @@ func newSys(c config) *sys {
 }
 
 func (s *sys) Close() {
+	if s.off {
+		return
+	}
 	sl := s.s
 	s.sc.Abandon(func() { sleep.VerifForce(sl) }, func() bool {
 		return sleep.VerifWaitingG(sl) == sleep.VerifGParked
-	}, s.parked && !s.parkReg)
+	}, (s.parked && !s.parkReg) || s.sc.stuckState != "" || s.hopeless)
 }
 
 // ---- observation of the shared memory through the accessors
@@ -206,7 +248,7 @@ func (s *sys) quiescent() bool {
 
 func (s *sys) Enabled() []gate.Move {
 	var out []gate.Move
-	if s.frozen != nil {
+	if s.frozen != nil || s.off {
 		return nil
 	}
 	switch {
@@ -229,7 +271,10 @@ func (s *sys) Enabled() []gate.Move {
 		g := &s.g[i]
 		if g.op == "" {
 			if g.ops < s.c.maxG {
-				out = append(out, gate.Move{W: i + 1, Op: "Assert"}, gate.Move{W: i + 1, Op: "Clear"})
+				out = append(out, gate.Move{W: i + 1, Op: "Assert"})
+				if !s.c.noClear {
+					out = append(out, gate.Move{W: i + 1, Op: "Clear"})
+				}
 			}
 		} else {
 			out = append(out, gate.Move{W: i + 1})
@@ -351,8 +396,39 @@ func (s *sys) afterWaker(i int, prev string, pre memv, p gate.Pos) []gate.Event 
 // Do executes one move.  Events of a move: [call] [obs of the state after the
 // move] [ret].
 func (s *sys) Do(m gate.Move) []gate.Event {
+	if s.off || s.frozen != nil {
+		return nil
+	}
+	evs, stuck := s.do(m)
+	if stuck {
+		// the watchdog fired: log it, freeze the projection at the state before the move, leak the goroutines
+		wi := s.sc.stuckWorker
+		op := s.fop
+		if wi > 0 {
+			op = s.g[wi-1].op
+		}
+		evs = append(evs, gate.Event{"ev": "stuck", "p": wi, "op": op, "state": s.sc.stuckState})
+		s.frozen["stuck"] = fmt.Sprintf("%d:%s:%s after %s", wi, op, s.sc.stuckState, m.String())
+		stuckSeen++
+		if s.sc.stuckState == "spinning" {
+			spinLeaks++
+			if spinLeaks >= maxSpinLeaks {
+				aborted = true
+			}
+		}
+	}
+	return evs
+}
+
+func (s *sys) do(m gate.Move) (evsOut []gate.Event, stuck bool) {
 	var evs, rets []gate.Event
 	pre := s.mem()
+	defer func() {
+		if s.sc.stuckState != "" {
+			s.frozen = s.stateWith(pre)
+			evsOut, stuck = evs, true
+		}
+	}()
 	if m.W == 0 {
 		prev := s.pcF
 		var p gate.Pos
@@ -389,13 +465,16 @@ func (s *sys) Do(m gate.Move) []gate.Event {
 				p, parked, reg = s.sc.GrantPark(0, func() bool { return sleep.VerifWaitingG(sl) == sleep.VerifGParked })
 				if parked {
 					s.parked, s.parkReg, s.pcF = true, reg, "parked"
-					return append(evs, s.obsMaybe(false)...)
+					return append(evs, s.obsMaybe(false)...), false
 				}
 			} else {
 				p = s.sc.Grant(0)
 			}
 		default:
 			vh.Fatal("bad sleeper move %v", m)
+		}
+		if s.sc.stuckState != "" {
+			return
 		}
 		rets = append(rets, s.afterSleeper(prev, pre, p)...)
 	} else {
@@ -420,6 +499,9 @@ func (s *sys) Do(m gate.Move) []gate.Event {
 		default:
 			vh.Fatal("bad waker move %v", m)
 		}
+		if s.sc.stuckState != "" {
+			return
+		}
 		rets = append(rets, s.afterWaker(i, prev, pre, p)...)
 		if prev == "E5" {
 			// goready executed: the sleeper goroutine runs up to its next gate
@@ -427,6 +509,9 @@ func (s *sys) Do(m gate.Move) []gate.Event {
 				vh.Fatal("goready step although the sleeper is not parked")
 			}
 			sp := s.sc.AwaitWake(0)
+			if s.sc.stuckState != "" {
+				return
+			}
 			s.parked = false
 			rets = append(rets, s.afterSleeper("parked", s.mem(), sp)...)
 		}
@@ -435,9 +520,39 @@ func (s *sys) Do(m gate.Move) []gate.Event {
 	evs = append(evs, rets...)
 	if s.finished && len(s.Enabled()) == 0 {
 		s.frozen = s.State()
-		evs = append(evs, s.reattach())
+		evs = append(evs, s.reattachWatched()...)
 	}
-	return evs
+	return evs, false
+}
+
+// reattachWatched runs the re-attachment probe on a goroutine of its own, under the watchdog.
+func (s *sys) reattachWatched() []gate.Event {
+	ch := make(chan gate.Event, 1)
+	gid := make(chan int64, 1)
+	go func() { gid <- goid(); ch <- s.reattach() }()
+	id := <-gid
+	var ev gate.Event
+	st := watch(id, 0, func() bool {
+		select {
+		case ev = <-ch:
+			return true
+		default:
+			return false
+		}
+	})
+	if st == "" {
+		return []gate.Event{ev}
+	}
+	stuckSeen++
+	if st == "spinning" {
+		spinLeaks++
+		if spinLeaks >= maxSpinLeaks {
+			aborted = true
+		}
+	}
+	s.frozen["stuck"] = "reattach:" + st
+	s.hopeless = true // Close gives up at once
+	return []gate.Event{{"ev": "stuck", "p": 0, "op": "reattach", "state": st}}
 }
 
 // ---- P-level observations
@@ -511,10 +626,16 @@ func (s *sys) reattach() gate.Event {
 // ---- projection
 
 func (s *sys) State() map[string]interface{} {
+	if s.off {
+		return map[string]interface{}{"aborted": true}
+	}
 	if s.frozen != nil {
 		return s.frozen
 	}
-	m := s.mem()
+	return s.stateWith(s.mem())
+}
+
+func (s *sys) stateWith(m memv) map[string]interface{} {
 	pcs, gvs, ggs, ops := []string{}, []int{}, []int{}, []int{}
 	for i := range s.g {
 		g := &s.g[i]
@@ -557,7 +678,10 @@ func (s *sys) State() map[string]interface{} {
 }
 
 func keyOf(st map[string]interface{}) string {
-	return fmt.Sprintf("%v|%v|%v|%v|%v|%v|%v|%v|%v|%v|%v|%v|%v|%v|%v|%v|%v|%v|%v",
+	if st["aborted"] != nil {
+		return "aborted"
+	}
+	return fmt.Sprint(st["stuck"]) + fmt.Sprintf("%v|%v|%v|%v|%v|%v|%v|%v|%v|%v|%v|%v|%v|%v|%v|%v|%v|%v|%v",
 		st["ws"], st["shared"], st["local"], st["waitingG"], st["parked"],
 		st["pcF"], st["fblock"], st["fw"], st["fops"], st["nadd"], st["sp"], st["sv"], st["dq"], st["pend"], st["inDone"],
 		st["pcG"], st["gv"], st["gg"], st["gops"])
@@ -582,12 +706,16 @@ func main() {
 	case "explore":
 		c := parseCfg(os.Args[2], nil)
 		g := gate.Explore(func() gate.System { return newSys(c) }, atoi(os.Args[3]))
-		vh.Emit(g)
+		vh.Emit(struct {
+			*gate.GraphOut
+			Aborted bool `json:"aborted"`
+			Stuck   int  `json:"stuck"`
+		}{g, aborted, stuckSeen})
 	case "random":
 		runs, seed := atoi(os.Args[3]), atoi(os.Args[4])
 		tr := vh.NewTrace(os.Args[5])
 		r := rand.New(rand.NewSource(int64(seed)))
-		for k := 0; k < runs; k++ {
+		for k := 0; k < runs && !aborted; k++ {
 			c := parseCfg(os.Args[2], r)
 			if strings.HasSuffix(os.Args[2], ":r") {
 				c.pre = r.Intn(2) == 0
@@ -601,7 +729,7 @@ func main() {
 			if c.pre {
 				pre = 1
 			}
-			tr.Log(map[string]interface{}{"ev": "reset", "run": k, "nw": c.nw, "pre": c.pre, "moves": path,
+			tr.Log(map[string]interface{}{"ev": "reset", "run": k, "nw": c.nw, "pre": c.pre, "preq": c.preQ, "moves": path,
 				"config": fmt.Sprintf("%d:%s:%d:%d:%d", c.nw, strings.Join(tg, ","), c.maxG, c.maxF, pre)})
 			for _, e := range evs {
 				tr.Log(e)
@@ -642,6 +770,9 @@ func main() {
 		res := []stressOut{}
 		for k := 0; k < rounds; k++ {
 			res = append(res, stress(ng, nw, it, seed+k))
+			if res[k].Stuck {
+				break // its goroutines are leaked (possibly spinning)
+			}
 		}
 		vh.Emit(map[string]interface{}{"rounds": res})
 	default:
